@@ -20,6 +20,10 @@ from fractions import Fraction  # noqa: E402
 
 OBJECTS = [(17,), ("acme", 17), (), ((1, 2),), [1, 2], [], {"a": 1}, {}, frozenset({1}), b"x", bytearray(b"x"), Fraction(1, 3), Decimal("1.50"), 1 + 2j, range(3),
            ("%s",), ("{0}", 1), {"uid": 1}]  # fmt: skip
+import sys as _sys  # noqa: E402
+
+if _sys.flags.bytes_warning:  # python -b / -bb: str(bytes) itself warns / raises there - Python's doing, not the library's
+    OBJECTS = [o for o in OBJECTS if not isinstance(o, (bytes, bytearray))]
 
 ALL = STRS + INTS + FLOATS + OTHERS + OBJECTS
 
